@@ -178,6 +178,17 @@ def parent_at(a, x):
     return par
 
 
+def add_user_flags(tables, rng, p=0.35):
+    """OR application-specific bits (the upper 16 bits of the flags word are reserved for users) into random node flags: being a sample
+    is the NODE_IS_SAMPLE bit, not equality of the whole word, so nothing the library computes may depend on these bits"""
+    fl = tables.nodes.flags.copy()
+    for u in range(len(fl)):
+        if rng.random() < p:
+            fl[u] = int(fl[u]) | (1 << rng.choice([16, 17, 20, 31]))
+    tables.nodes.flags = fl
+    return tables
+
+
 def build_tables(a, cmap=None, tmap=None, alleles=ALLELES, build_index=True, metadata=False):
     """abstract ts -> real TableCollection (coordinates through cmap, times through tmap)."""
     cmap = cmap or CMap()
